@@ -4,7 +4,8 @@
 (* definition (C17): permuting the definitions of a file, splitting them   *)
 (* over two named files given in either order, adding or removing          *)
 (* definitions the base definitions do not reference, letting one of two   *)
-(* named files include the other.                                          *)
+(* named files include the other, adding a further named file with many    *)
+(* (90) unrelated templates that instantiate each other (bulk).            *)
 (* TLC enumerates every variant; the harness renders and runs each.        *)
 (***************************************************************************)
 EXTENDS Integers, Sequences, FiniteSets, TLC, Json, SequencesExt
@@ -16,11 +17,11 @@ VARIABLE v
 Perms == {p \in [1..Cardinality(Base) -> Base] : \A a, b \in 1..Cardinality(Base) : a # b => p[a] # p[b]}
 \* link: with two named files, one of them may also include the other (it is then reached twice: by name and by include)
 Init == /\ v \in [perm : Perms, extras : SUBSET Extras, second : SUBSET Base, swapFiles : BOOLEAN, extrasFirst : BOOLEAN,
-                  link : {"none", "oneIncludesTwo", "twoIncludesOne"}]
+                  link : {"none", "oneIncludesTwo", "twoIncludesOne"}, bulk : BOOLEAN]
         /\ (v.second = {} => v.link = "none")
 Next == UNCHANGED v
 Spec == Init /\ [][Next]_v
 \* the base variant is: identity-like order, no extras, one file
 Emit == PrintT(<<"CASE", ToJson([perm |-> v.perm, extras |-> SetToSeq(v.extras), second |-> SetToSeq(v.second),
-                                 swapFiles |-> v.swapFiles, extrasFirst |-> v.extrasFirst, link |-> v.link])>>)
+                                 swapFiles |-> v.swapFiles, extrasFirst |-> v.extrasFirst, link |-> v.link, bulk |-> v.bulk])>>)
 =============================================================================
